@@ -35,6 +35,10 @@ _G_FORMS = _g(Alphabet=_FEW, MaxLen=1, Prefixes=_PFX, Forms='{"origin", "absolut
 _G_NAMESAKE = _g(Alphabet='{"a", "base", "basex", "base-admin", "nested"}', MaxLen=2, BaseIds='{"base", "nested"}',
                  Preserves="{TRUE, FALSE}")
 
+# endpoint URLs that carry a query of their own: the client's query (or none) is what must go upstream
+_G_BQUERY = _g(Alphabet=_FEW, MaxLen=1, BaseIds='{"bquery", "nquery"}', Queries='{"", %s}' % _Q1)
+_G_BQUERY_CFG = _g(Kinds='{"cfg"}', MaxLen=0, BaseIds='{"bquery", "nquery"}')
+
 _T_SEQ3 = _g(MaxLen=3, Prefixes=_PFX)
 _T_SEQ4 = _g(MaxLen=4)
 _T_DEEP5 = _g(Alphabet=_DEEP, MaxLen=5, BaseIds='{"base", "nested"}', Engines='{"olla"}')
@@ -67,8 +71,8 @@ def register(PROPS, HARNESS_PKGS):
         "parts": [{
             "name": "urlpath",
             "mc": [{"module": "UrlPath", "cfg": "UrlPath_mc.cfg", "quick_params": {"MaxLen": 3}, "thorough_params": {"MaxLen": 4}}],
-            "quick": {"gen": [_G_CFG, _G_SEQ2, _G_SEQ3, _G_DOTS3, _G_FORMS, _G_NAMESAKE]},
-            "thorough": {"gen": [_G_CFG, _T_SEQ3, _T_SEQ4, _T_DEEP5, _T_FORMS, _G_NAMESAKE]},
+            "quick": {"gen": [_G_CFG, _G_SEQ2, _G_SEQ3, _G_DOTS3, _G_FORMS, _G_NAMESAKE, _G_BQUERY, _G_BQUERY_CFG]},
+            "thorough": {"gen": [_G_CFG, _T_SEQ3, _T_SEQ4, _T_DEEP5, _T_FORMS, _G_NAMESAKE, _G_BQUERY, _G_BQUERY_CFG]},
             "pkg": "internal/app", "test": "TestVerif_UrlPath",
             "harness_dirs": ["app"],
             "harness_files": ["stack_test.go", "urlpath_test.go"],
